@@ -44,6 +44,16 @@ theorem mem_uniqAux (seen l : List Bytes) (e : Bytes) :
 theorem mem_uniq (l : List Bytes) (e : Bytes) : e ∈ uniq l ↔ e ∈ l := by
   simp [uniq, mem_uniqAux]
 
+/-- the caller's slice after the in-place compaction still holds exactly the same set of entries -/
+theorem mem_uniqInPlace (l : List Bytes) (e : Bytes) : e ∈ uniqInPlace l ↔ e ∈ l := by
+  unfold uniqInPlace
+  rw [List.mem_append, mem_uniq]
+  constructor
+  · rintro (h | h)
+    · exact h
+    · exact List.mem_of_mem_drop h
+  · intro h; exact Or.inl h
+
 /-! ### verification -/
 
 variable (cd : Codec G) (pub : List F) (hm : G) (t n : Nat)
@@ -96,6 +106,11 @@ theorem members_cons (e : Bytes) (l : List Bytes) :
 theorem members_uniq (l : List Bytes) : members cd pub hm n (uniq l) = members cd pub hm n l := by
   ext i
   simp only [members, List.mem_toFinset, List.mem_filterMap, mem_uniq]
+
+theorem members_uniqInPlace (l : List Bytes) :
+    members cd pub hm n (uniqInPlace l) = members cd pub hm n l := by
+  ext i
+  simp only [members, List.mem_toFinset, List.mem_filterMap, mem_uniqInPlace]
 
 /-- what the accumulator `pubShares` always looks like -/
 structure AccOK (acc : List (PubShare G)) : Prop where
